@@ -76,7 +76,44 @@ def materialise(p):
     if isinstance(p, str) and p.startswith("<") and p.endswith(">") and p != ABSENT:
         return {"<SET>": {1, 2}, "<FROZENSET>": frozenset([1]), "<BEAN>": _Bean(), "<DECIMAL>": decimal.Decimal("1.5"),
                 "<ENUM>": _Colour.RED, "<OBJECT>": object(), "<BYTES>": b"raw"}[p]
+    return materialise_nested(p)
+
+
+def materialise_nested(p):
+    # below the top level only the frozenset marker stands for an object (text strategies may
+    # produce any string constant of this module)
+    if isinstance(p, str) and p == "<FROZENSET>":
+        return frozenset([1])
+    if isinstance(p, list):
+        return [materialise_nested(x) for x in p]
+    if isinstance(p, tuple):
+        return tuple(materialise_nested(x) for x in p)
+    if isinstance(p, dict):
+        return dict((k, materialise_nested(v)) for k, v in p.items())
     return p
+
+
+def holds_marker(p):
+    if isinstance(p, (list, tuple)):
+        return any(holds_marker(x) for x in p)
+    if isinstance(p, dict):
+        return any(holds_marker(v) for v in p.values())
+    return isinstance(p, str) and p == "<FROZENSET>"
+
+
+def norm_sets(v):
+    """JSON normalisation including what the class translator does to plain containers"""
+    if isinstance(v, (list, tuple, set, frozenset)):
+        return [norm_sets(x) for x in v]
+    if isinstance(v, dict):
+        return dict((k, norm_sets(x)) for k, x in v.items())
+    return v
+
+
+# containers whose members need the class translator although they are plain data
+nested_convertible_params = st.sampled_from([
+    {"a": "<FROZENSET>"}, {"a": 1, "b": {"c": "<FROZENSET>"}}, ["<FROZENSET>"], [1, ("<FROZENSET>", 2)], ("<FROZENSET>",), {"k": [("<FROZENSET>",)]},
+])
 
 
 scalar_params = st.one_of(st.integers(-3, 3), st.text(max_size=3), st.booleans(), st.floats(allow_nan=False, allow_infinity=False, width=16))
@@ -95,7 +132,7 @@ flags = st.sampled_from([None, False, True])
 def message_cases(draw):
     kind = draw(st.sampled_from(["dumps", "dumps", "dump"]))
     method = draw(st.one_of(methods, methods, methods, bad_methods))
-    params = draw(st.one_of(good_params, good_params, good_params, scalar_params, convertible_params))
+    params = draw(st.one_of(good_params, good_params, good_params, scalar_params, convertible_params, nested_convertible_params))
     return {
         "kind": kind,
         "method": method,
@@ -176,6 +213,9 @@ def oracle_message(case):
     if not (isinstance(params, str) and params == ABSENT):
         kw["params"] = materialise(params)
     special = isinstance(params, str) and params.startswith("<") and params != ABSENT
+    if holds_marker(params) and not case["jsonclass"]:
+        from vlib.core import Skip
+        raise Skip()      # without the translator a frozenset is no JSON value
     if case["kind"] == "dumps":
         kw["methodresponse"], kw["notify"] = resp, notify
         func = J.dumps
@@ -229,7 +269,9 @@ def oracle_message(case):
             fail("C14/dump-type", "dump returned %s" % type(out).__name__)
         msg = gen.norm(out)
 
-    np = gen.norm(p)
+    np = norm_sets(p) if holds_marker(params) else gen.norm(p)
+    if holds_marker(params):
+        classes.append("params:nested-convertible")
     if resp:
         exp = {"result": np, "id": rpcid}
         if effver >= 2:
